@@ -977,7 +977,9 @@ class System(StoredHw, Datetime, Logbook, SystemBase):
         """
 
         _schema: dict[str, Any]
-        schema = shrink(SCH_TCS(schema))
+        schema = SCH_TCS(schema)
+        zone_idxs = list(schema.get(SZ_ZONES) or {})  # incl. those with no attrs (yet)
+        schema = shrink(schema)
 
         if schema.get(SZ_SYSTEM) and (
             dev_id := schema[SZ_SYSTEM].get(SZ_APPLIANCE_CONTROL)
@@ -990,8 +992,8 @@ class System(StoredHw, Datetime, Logbook, SystemBase):
         if not isinstance(self, MultiZone):
             return
 
-        if _schema := (schema.get(SZ_ZONES)):  # type: ignore[assignment]
-            [self.get_htg_zone(idx, **s) for idx, s in _schema.items()]
+        _schema = schema.get(SZ_ZONES) or {}
+        [self.get_htg_zone(idx, **_schema.get(idx, {})) for idx in zone_idxs]
 
     @classmethod
     def create_from_schema(cls, ctl: Controller, **schema: Any) -> System:
